@@ -142,7 +142,7 @@ class Rel32JmpRelocation(Relocation):
     name = "rel32"
 
     def calc(self, sym_value, reloc_value):
-        offset = sym_value - reloc_value + self.addend
+        offset = sym_value - reloc_value
         return wrap_negative(offset, 32)
 
 
